@@ -211,8 +211,13 @@ func EvalString(this any, code string, emptyEnv bool) (object.Object, error) {
 		if ok {
 			maxDepth = evalState.MaxDepth // in case it's lower, carry that lower value.
 		}
+		var ctx context.Context
+		if ok {
+			ctx = evalState.Context // the caller's deadline/cancellation applies to the nested evaluation too.
+		}
 		evalState = NewBlankState()
 		evalState.MaxDepth = maxDepth
+		evalState.Context = ctx
 	} else {
 		if !ok {
 			return object.NULL, fmt.Errorf("invalid this: %T", this)
